@@ -132,6 +132,35 @@ def conn_bodies(prog):
     return out
 
 
+DISCARDING = ("bytes::bytes_mut::BytesMut::clear", "bytes::bytes_mut::BytesMut::truncate", "bytes::bytes_mut::BytesMut::split_to",
+              "bytes::bytes_mut::BytesMut::advance", "bytes::buf::buf_impl::Buf::advance", "bytes::bytes_mut::BytesMut::split",
+              "bytes::bytes_mut::BytesMut::split_off", "bytes::bytes_mut::BytesMut::set_len", "bytes::bytes_mut::BytesMut::resize",
+              "core::mem::take", "core::mem::replace")
+
+
+def _from_capture(body, local, depth=6):
+    """does `local` (a reference) derive from the closure's captures / parameters rather than a value built locally?"""
+    for _ in range(depth):
+        if local is None:
+            return False
+        if 1 <= local <= body.raw.get("argc", 1):
+            return True
+        defs = [s for bb, i, s in body.stmts() if s["k"] == "assign" and s["place"]["l"] == local and not s["place"]["p"]]
+        if len(defs) != 1:
+            return True   # unknown provenance: fail closed
+        rv = defs[0]["rv"]
+        if rv["k"] == "ref":
+            local = rv["place"]["l"]
+            if not rv["place"]["p"] and not (1 <= local <= body.raw.get("argc", 1)):
+                return False  # reference to a whole local value
+            continue
+        if rv["k"] == "use" and op_local(rv["op"]) is not None:
+            local = op_local(rv["op"])
+            continue
+        return False
+    return True
+
+
 def persist_rule(rep, prog, cfg):
     rule = "C02.persist"
     # who may write the connection's buffer fields
@@ -205,6 +234,15 @@ def persist_rule(rep, prog, cfg):
                     bad.append("assignment to %s" % buf)
                 elif f is not None and f != buf and f in ("total_received",) and st["rv"]["k"] == "use" and op_const(st["rv"]["op"]) is not None:
                     bad.append("%s = constant" % f)
+        # the same in closures nested in receive (e.g. an error-path callback capturing the buffer): a shortening call
+        # there on anything reached through a capture is a discard of connection state
+        for nb in prog.bodies.values():
+            if nb is b or nb.root != b.root or nb.raw.get("derived") or not nb.name.startswith(b.name + "::"):
+                continue
+            for bb, t in nb.calls():
+                ns = callee_names(t)
+                if any(n in DISCARDING for n in ns) and t["args"] and _from_capture(nb, op_local(t["args"][0])):
+                    bad.append("%s in nested closure %s" % (ns[0], nb.name.rsplit("::", 1)[-1]))
         rep.check(not bad, rule, "%s/%s does not discard buffered bytes" % (cfg, fl_name), b.loc(b.span),
                   "receive itself removes bytes from the persistent buffer (%s); only the parser may consume, and only what it parsed" % bad)
         # the response builder is created per call with the connection's field cache; state local: see C04.cancel-safe
